@@ -220,12 +220,13 @@ PROPS = {
     },
     "C13": {
         "gen": True,
+        "technique": "Lean 4 theorems over a hand-written model + Go-to-Lean translation of hdr.go's integer code (value functions, iterator.next, Max, Min) regenerated on every run and proved equal to the model + differential correspondence check against the Go implementation",
         "streams": ["hdr-stat"],
         "rule": "hdr-stat: random multisets (uniform, log-skewed, clustered at power-of-two boundaries, heavy duplicates, rejected values; n <= 60, thorough: up to 3000) on "
                 "configurations up to 2^21; 17 quantiles per multiset (fixed grid incl. 0.001, 100, >100 plus random), ranks computed by the library's own float expression; "
                 "every multiset split at a random point into merge operands (same configuration, a smaller/coarser one, and the same shape at another unit magnitude - lowest and highest scaled by a power of two -, both merge orders); rotation schedules of 1-5 windows x 1-12 "
                 "steps; Export/Import, BSON and JSON round trips. Oracle: exact sorted list. Distinct = distinct (configuration, counts array).",
-        "level_text": "Theorems (Props/C13.lean, Lemmas/HdrRank.lean), for every valid configuration, every list of recorded int64 values and every rank: the value at rank r is the "
+        "level_text": "REGENERATED GO CODE (Gen/Code.lean, translated from hdr.go on every run; 32-bit arithmetic exact): go_iterator_step_is_model - one call of iterator.next is one step of the model's walk, from every position; go_Max_Min_are_model - Max and Min as they stand in hdr.go (iterator constructor, the for i.next() loop with its break, the final equivalent-value call) equal the model's maxV/minV for every reachable histogram; go_value_functions_are_model, go_quantile_is_order_statistic - the value a quantile reports is hdr.go's own highestEquivalentValue of the exact order statistic. Theorems (Props/C13.lean, Lemmas/HdrRank.lean), for every valid configuration, every list of recorded int64 values and every rank: the value at rank r is the "
                       "histogram's representative (highest equivalent value) of the exact order statistic of rank r (quantile_is_order_statistic; with the sorted list spelled out: "
                       "quantile_is_rth_smallest), quantiles are monotone in the rank (quantile_monotone) and within the precision bound of the order statistic "
                       "(quantile_within_precision); Max() is the representative of the largest and Min() the lowest equivalent value of the smallest recorded value, each within "
